@@ -402,10 +402,15 @@ def judge(case, impl_res, ans):
         if ok['field'] != case['field'] or sorted(ok['back']) != exp:
             return 'SPEC: two-column table read back as %s %s, written %s %s' % (ok['field'], ok['back'], case['field'], exp)
         if ok.get('meta') is not None:
-            nonempty = [[k, v] for k, v in exp if v != ['str', '']]
-            want = [[case['field'], nonempty]] if nonempty else []
-            if [[f, sorted(dd)] for f, dd in ok['meta']] != want:
-                return 'SPEC: metadata file read back as %s, written %s' % (ok['meta'], want)
+            # the same file through load_metadata: in the domain of Props.metadata_roundtrip (no empty value, field
+            # not called cluster_id) the Lean spec says what must come back; outside, the model of load_metadata
+            in_dom = case['field'] != 'cluster_id' and all(v != '' for _, v in case['data'])
+            if in_dom and m['meta'] != m['meta_expected']:
+                return 'MACHINERY: model load_metadata differs from its spec (contradicts the theorem)'
+            want = [[f, [[num_py(k), num_py(v)] for k, v in dd]] for f, dd in m['meta']]
+            got = [[f, [[['int', k] if type(k) is int else py_enc(k), v] for k, v in dd]] for f, dd in ok['meta']]
+            if got != want:
+                return '%s: metadata file loaded as %s, expected %s' % ('SPEC' if in_dom else 'CORR', got, want)
         if m['real_parsed'] != m['expected']:
             return 'CORR: the file written by the real code, read by the model reader, differs from the table'
         return None
